@@ -39,6 +39,9 @@ func (f SolarChargerStateFactoryType) New(v uint8) (SolarChargerState, error) {
 }
 
 func (f SolarChargerStateFactoryType) NewEnum(v int) (Enum, error) {
+	if v < 0 || v > 255 {
+		return nil, ErrInvalidEnumIdx
+	}
 	return f.New(uint8(v))
 }
 
